@@ -244,3 +244,44 @@ func Mix(a uint32, b uint8) uint32 {
 	x -= 7
 	return x<<3 | uint32(b>>1)
 }
+
+// receiver-mutating methods: the translation hands the final receiver back
+type Ring struct {
+	Buf     []int
+	Head, N int
+}
+
+func (r *Ring) drop() {
+	r.Head = (r.Head + 1) % len(r.Buf)
+	r.N--
+}
+
+func (r *Ring) Push(x int) bool {
+	if r.N == len(r.Buf) {
+		return false
+	}
+	r.Buf[(r.Head+r.N)%len(r.Buf)] = x
+	r.N++
+	return true
+}
+
+func (r *Ring) PushAll(xs []int) int {
+	dropped := 0
+	for _, x := range xs {
+		ok := r.Push(x)
+		if !ok {
+			r.drop()
+			dropped++
+			_ = r.Push(x)
+		}
+	}
+	return dropped
+}
+
+func (r *Ring) Sum() int {
+	s := 0
+	for i := 0; i < r.N; i++ {
+		s += r.Buf[(r.Head+i)%len(r.Buf)]
+	}
+	return s
+}
